@@ -31,6 +31,9 @@ def main():
     import gen_cphd
     r7 = gen_cphd.generate(os.path.join(GEN, 'CphdKernels.lean'))
     print('generated:', {'CphdKernels': r7['unsupported']})
+    import gen_dispatch
+    r8 = gen_dispatch.generate(os.path.join(GEN, 'Dispatch.lean'))
+    print('generated:', {'Dispatch': r8['unsupported']})
     for extra in ('tables_xml',):
         try:
             mod = __import__(extra)
